@@ -53,6 +53,7 @@ func genC09(t *rapid.T) *C09Case {
 		n = rapid.IntRange(1, 120).Draw(t, "nAny")
 	}
 	cfg.HBInt = n
+	cfg.ObserverReturnsFalse = rapid.IntRange(0, 3).Draw(t, "observerReturnsFalse") == 0
 	g := &hgen{t: t, cfg: cfg, inSeq: 1}
 	c := &C09Case{N: n}
 	c.Cfg = cfg
